@@ -64,6 +64,11 @@ add([J.Include(C("nope"))], D)
 # autoescape block
 add([J.Autoescape(C(True), [J.Out(N("s")), J.Out(J.Concat(N("s"), J.Filter(N("s"), "safe")))]), J.Out(N("s")), J.Autoescape(C(False), [J.Out(N("s"))])], D)
 
+# stateful helpers and slices
+add([J.Set("cy", J.Call(N("cycler"), [C(1), C("b<")])), J.For(J.TName("i"), N("xs"), [J.Out(J.Getattr(N("cy"), "current")), J.Out(J.Call(J.Getattr(N("cy"), "next"))), J.Out(J.Call(J.Getattr(N("loop"), "changed"), [J.Bin("%", N("i"), C(2))])), J.Text(",")]),
+     J.Out(J.Call(J.Getattr(N("cy"), "reset"))), J.Out(J.Getattr(N("cy"), "current")),
+     J.Set("jn", J.Call(N("joiner"), [N("s")])), J.For(J.TName("i"), N("xs"), [J.Out(J.Call(N("jn"))), J.Out(N("i"))]), J.Set("j2", J.Call(N("joiner"))), J.Out(J.Call(N("j2"))), J.Out(J.Call(N("j2")))], D, auto=True)
+add([J.Out(J.Slice(N("xs"), C(1))), J.Out(J.Slice(N("xs"), None, J.Neg(C(1)))), J.Out(J.Slice(N("xs"), C(1), C(9))), J.Out(J.Slice(N("xs"), J.Neg(C(9)), C(2))), J.Out(J.Slice(N("xs"), C(2), C(1))), J.Out(J.Slice(N("q"), C(1)))], D)
 res, r = jrun.spec_results("SMOKE", cases)
 print("TLC:", r.distinct, "states", round(r.wall, 1), "s ok=", r.ok, r.invariant_violated)
 bad = 0
